@@ -75,6 +75,25 @@ def long_batch(chk, st, key, nv, n, p_exact, amp, det):
     return ok
 
 
+def z_forms(chk, st, key, sp, p_exact, Z, det, n):
+    """probability(v, Z): Z is documented as a float; users pass float(normalization(space)), .item(), a numpy
+    scalar or the tensor itself, by position or by keyword - the normalised probability is the same number"""
+    if abs(terms.mpf(Z)) > mpmath.mpf(10) ** 300:
+        return True
+    zt = st.normalization(sp)
+    forms = [("tensor", lambda: st.probability(sp, zt)), ("float", lambda: st.probability(sp, float(zt))),
+             ("keyword-float", lambda: st.probability(sp, Z=zt.item())),
+             ("numpy-scalar", lambda: st.probability(sp, __import__("numpy").float64(zt.item())))]
+    name, f = forms[n % len(forms)]
+    pz = f()
+    ok = True
+    k = n % len(p_exact)
+    want = terms.mpf(p_exact[k]) / terms.mpf(Z)
+    ok &= cmp(chk, key, "probability[Z as %s]" % name, pz[k].item(), want, dict(det, state=k), rel=REL + 1e-12)
+    ok &= cmp(chk, key, "probability[Z as %s]:sum" % name, pz.sum().item(), mpmath.mpf(1), det, rel=REL + 1e-12)
+    return ok
+
+
 def replay_point(chk, e, n):
     nv, nh, B = e["nv"], e["nh"], e["B"]
     # torch's softplus returns x for x > 20 (threshold), i.e. drops log1p(exp(-x)) <= 2.07e-9 per hidden
@@ -110,6 +129,7 @@ def replay_point(chk, e, n):
     ok &= cmp(chk, key, "compute_normalization", pos.compute_normalization(sp).item(), Z, det)
     pz = pos.probability(sp, pos.normalization(sp))
     ok &= cmp(chk, key, "probabilities-sum-to-one", pz.sum().item(), mpmath.mpf(1), det)
+    ok &= z_forms(chk, pos, key, sp, p_exact, Z, det, n)
     # 1-D call forms
     k1 = n % (2 ** nv)
     ok &= cmp(chk, key, "probability[1-D]", pos.probability(sp[k1]).item(), p_exact[k1], dict(det, state=k1))
@@ -144,6 +164,7 @@ def replay_point(chk, e, n):
         ok &= cmp(chk, key, "born", psi[0, k].item() ** 2 + psi[1, k].item() ** 2, terms.mpf(prob[k].item()),
                   dict(det, state=k), rel=1e-12)
     ok &= cmp(chk, key, "normalization", cx.normalization(sp).item(), Z, det)
+    ok &= z_forms(chk, cx, key, sp, p_exact, Z, det, n)
     v1 = cx.psi(sp[k1])
     w1 = amp[k1] * terms.cis(terms.ln(r_exact[k1]) / 2)
     chk.evaluations += 1
